@@ -96,7 +96,7 @@ def symmetric_windows(chk, env):
                 names = ["cv[%d]" % k_ for k_ in range(n + 1)]
                 space = Space(names)
                 it = env.interp(max_paths=8192)
-                it.max_steps = 100000000
+                it.max_steps = 5000000      # needs 0.2M today
                 it.prune = True
                 it.cmp_split = True
                 it.split_all = True
